@@ -18,10 +18,13 @@ def pOB (s : String) : Option (Option Bool) :=
 def pOS (s : String) : Option (Option String) :=
   if s == "-" then some none else if s.startsWith "h" then (unhexStr (s.drop 1).toString).map some else none
 
+def pON (s : String) : Option (Option Nat) :=
+  if s == "-" then some none else s.toNat?.map some
+
 def pP : Pr P
-  | c :: d :: f :: m :: r => match pOB c, pOS d, pOS f, pOB m with
-    | some c, some d, some f, some m => some ({ config := c, desc := d, dflt := f, mandatory := m }, r)
-    | _, _, _, _ => none
+  | c :: d :: f :: m :: lo :: hi :: r => match pOB c, pOS d, pOS f, pOB m, pON lo, pON hi with
+    | some c, some d, some f, some m, some lo, some hi => some ({ config := c, desc := d, dflt := f, mandatory := m, minEl := lo, maxEl := hi }, r)
+    | _, _, _, _, _, _ => none
   | _ => none
 
 def pNames : Nat → Pr (List String)
@@ -95,7 +98,9 @@ def showOB : Option Bool → String
   | none => "-" | some false => "0" | some true => "1"
 def showOS : Option String → String
   | none => "-" | some s => "h" ++ hexStr s
-def showP (p : P) : List String := [showOB p.config, showOS p.desc, showOS p.dflt, showOB p.mandatory]
+def showON : Option Nat → String
+  | none => "-" | some n => toString n
+def showP (p : P) : List String := [showOB p.config, showOS p.desc, showOS p.dflt, showOB p.mandatory, showON p.minEl, showON p.maxEl]
 
 mutual
   def showT : T → List String
